@@ -463,7 +463,7 @@ STANDIN_BOUND = {
     "thr": "29 token streams x 3 thresholds: threshold only hides small lone numbers; 3 linked-number sentences; about 11 000 systematic sequences (en, fr) of 2-3 numbers out of 6 (small / large x cardinal / ordinal) with a comma, nothing, an ordinary word, a period or a token of digits between them, under the property's own characterisation: reported at threshold 10 iff not small or a same-kind neighbour; every single-word entry of each language's INSIGNIFICANT set (read from /repo's vocabulary files) between two small numbers: both reported, and an ordinary word in the same place: neither",
     "iter": "29 token streams x 3 thresholds: find_numbers_iter == find_numbers; hint-free streams also with tokens that keep the trait's default hint methods",
     "orule": "17 English sentences with 'o' next to words, punctuation and no-break spaces, and after a swallowed 'and' / 'point' while a number is pending; plus 270 systematic neighbourhoods: 10 left contexts x 9 right contexts (number word, ordinary word, comma, dash, other punctuation, text boundary) x 3 kinds of whitespace",
-    "ncase": "11 words with non-ASCII letters, those letters capitalised",
+    "ncase": "11 words with non-ASCII letters, those letters capitalised; every single-word linking word of each language (from /repo's vocabulary files) upper-cased and capitalised between two small numbers, as a plain token and as a token flagged not-a-number, number words in lower and upper case: same occurrences as in lower case",
     "punct": "two pairs of numbers that could combine (hundred + twenty, sixty + five, ...) per language x 14 punctuation separators (comma, semicolon, colon, !, ?, spaced dash and en dash, slash, brackets, ellipsis, quote; with and without spaces): rewritten as a p b at threshold 0",
     "facade": "per language every word of its grammar table (plus articles, conjunction, separator word, an ordinary word, a comma) alone and every ordered pair of them (about 200 000 phrases), and the 29 stream phrases: "
               "text2digits, replace_numbers_in_text (thresholds 0 and 10) and find_numbers (threshold 10) through the concrete interpreter type and through Language must agree",
